@@ -5,6 +5,7 @@
 import QV.Sexp
 import QV.Driver.Color
 import QV.Driver.Layout
+import QV.Driver.Names
 
 open QV
 
@@ -25,6 +26,8 @@ def dispatch (req : Sexp) : Sexp :=
   | .list (.atom "spec-form" :: args) => Driver.Layout.handleSpec "spec-form" args
   | .list (.atom "spec-vbox" :: args) => Driver.Layout.handleSpec "spec-vbox" args
   | .list (.atom "spec-hbox" :: args) => Driver.Layout.handleSpec "spec-hbox" args
+  | .list (.atom "names" :: args) => Driver.Names.handleModel args
+  | .list (.atom "spec-names" :: args) => Driver.Names.handleSpec args
   | _ => .list [.atom "bad-request"]
 
 partial def loop (h : IO.FS.Stream) (out : IO.FS.Stream) : IO Unit := do
